@@ -22,6 +22,11 @@ Tie of coq/model/Chan.v + Spawn.v to /repo (every run):
      computing and receiving: parameters seen by the launched call, order of the side effects around the launch,
      exactly-once / per-sender order, the launcher's own sum and the wait() results, against expectations computed from
      the scenario (oracle only);
+  H  producers: every loop form that yields the values which are sent, handed to threads or stored (C-style, range over
+     int / list / string / map / set by key and by value, `in`, explicit iterators with next() / entry(), callbacks of
+     each / map / filter), 300..2600 values, the loop variable itself sent (operator / method), given to spawn / go /
+     fn.spawn threads that wait behind a gate, or stored; receivers hold what they got and hand it over after the
+     producer has finished (lib/c10prod.py; oracle only);
   E  2..4 goroutines ranging over one channel, 20000 messages (the class repaired by 0f2710a: regression stage);
   F  a sample of B, D and E in a -race build;
   G  keys(ch) / map(ch) consumers (object.IterNextEntry): one next to receive() users, and several at once on one channel
@@ -1206,6 +1211,52 @@ def _body(res, tier, obs, model, proved):
             mok += 1
     stats["D3_launch_matrix"] = {"cases": len(mcs), "ok": mok, "ran_into_deadline_first_time": len(redo), "observed_again": redone}
 
+    # ---------------- H: producers - every loop form that yields the values which are sent / handed to threads / stored,
+    # more than 256 and more than 1024 values, held by the receiving side until the producer is done (oracle only)
+    from lib import c10prod
+    C.log("C10/H: producers")
+    nh = 260 if quick else 6000
+    hcs = [c10prod.gen(rng, k) for k in range(nh)]
+    reqs = [{"id": "H%d" % k, "src": c10prod.script(sc), "procs": sc["procs"], "yield": 0, "timeout_ms": 8000} for k, sc in enumerate(hcs)]
+    hres, fails = run_impl_sharded(obs, reqs, C.NCPU, 900)
+    hok, hredo, hstyles = 0, [], {}
+    for k, sc in enumerate(hcs):
+        st["evals"] += 1
+        r = hres.get("H%d" % k)
+        case = {"stage": "H-producers", "scenario": sc}
+        if r is None:
+            corr.append(dict(case, impl="no answer"))
+            continue
+        why, definite = c10prod.oracle(sc, r)
+        if why and definite:
+            oracle_viol.append(dict(case, impl={kk: (v if len(json.dumps(v)) < 600 else json.dumps(v)[:600] + "...") for kk, v in r.get("logs", {}).items()},
+                                    why=why, src=c10prod.script(sc)))
+        elif why:
+            hredo.append(k)
+        else:
+            hok += 1
+        hstyles[sc["style"]] = hstyles.get(sc["style"], 0) + 1
+        nontrivial.add(("H", sc["style"], sc["transport"], sc["n"] > 1024))
+        if k < 1:
+            samples.append(dict(case, src=c10prod.script(sc)))
+    # an evaluation that ran into its deadline is not an observation: run again, alone, with a long deadline
+    hredone = 0
+    for k in ([] if any(v.get("stage") == "H-producers" for v in oracle_viol) else hredo[:3]):
+        sc = hcs[k]
+        rc_, rr, _e = run_impl(obs, [{"id": "R", "src": c10prod.script(sc), "procs": sc["procs"], "yield": 0, "timeout_ms": 30000}], 120)
+        r = rr.get("R")
+        hredone += 1
+        if r is None:
+            continue
+        why, definite = c10prod.oracle(sc, r)
+        if why:
+            oracle_viol.append({"stage": "H-producers", "scenario": sc, "src": c10prod.script(sc),
+                                "why": why + (" [second observation, alone, deadline 30 s]" if not definite else "")})
+        else:
+            hok += 1
+    stats["H_producers"] = {"cases": len(hcs), "ok": hok, "ran_into_deadline_first_time": len(hredo), "observed_again": hredone,
+                            "styles": hstyles}
+
     if fresh_violation():
         return finish()
     C.log("C10/E: several goroutines ranging over one channel")
@@ -1383,6 +1434,10 @@ def _finish(res, evals, nontrivial, samples, stats, corr, oracle_viol, known, kn
                    "index expressions, a call with a recorded side effect, while the launching code goes on computing and receiving: "
                    "parameters seen by the launched call, order of side effects around the launch, exactly-once / per-sender order of "
                    "the values, the launcher's own sum and the wait() results against expectations computed from the scenario. "
+                   "H: producers - the values that are sent / given to threads / stored are the loop variable of every loop form (C-style, range "
+                   "over int, list, string, map, set by key and by value, `in`, iterators driven with next() / entry(), callbacks of each / "
+                   "map / filter), 300..2600 values, buffers 0..300, 1-2 receivers that hold their values until the producer is done; "
+                   "exactly once, per-sender order, thread arguments and wait() results from the scenario alone. "
                    "E: 2..4 goroutines ranging over one channel, 20000 messages. "
                    "F: a sample of B, D, D3 and one E topology in a -race build, one process per case. G: one or several goroutines "
                    "consuming the channel with map(ch). "
@@ -1540,6 +1595,12 @@ def replay(data):
             print("attempt %d: %s" % (attempt, why or "property holds on this run"))
             if why:
                 print(json.dumps(r)[:1500])
+                return 1
+        elif data.get("stage", "").startswith("H") and data.get("scenario"):
+            from lib import c10prod
+            why, definite = c10prod.oracle(data["scenario"], r)
+            print("attempt %d: %s" % (attempt, why or "property holds on this run"))
+            if why:
                 return 1
         elif data.get("stage", "").startswith(("B", "C", "E")) and cfg:
             why, facts = topo_oracle(cfg, r)
